@@ -120,22 +120,7 @@ use crate::parser::Element;
 //@item file=code/remover/marker/factory.rs kind=type name=RemoveStrategies
 //@item file=code/remover/marker/factory.rs kind=type name=RemovableRange
 
-/// index of the first strategy whose availability test accepts the element
-pub open spec fn first_available(s: Seq<(Box<dyn MarkerAvailability>, Box<dyn MarkerBuilder>)>, el: Element, i: int) -> bool {
-    &&& 0 <= i < s.len() && s[i].0.spec_available(el)
-    &&& forall|k: int| 0 <= k < i ==> !(#[trigger] s[k]).0.spec_available(el)
-}
-pub open spec fn create_spec(s: Seq<(Box<dyn MarkerAvailability>, Box<dyn MarkerBuilder>)>, el: Element) -> Option<RemovableRange> {
-    if exists|i: int| first_available(s, el, i) {
-        Some(s[choose|i: int| first_available(s, el, i)].1.spec_build(el))
-    } else { None }
-}
-pub proof fn lemma_first_available_unique(s: Seq<(Box<dyn MarkerAvailability>, Box<dyn MarkerBuilder>)>, el: Element, i: int, j: int)
-    requires first_available(s, el, i), first_available(s, el, j),
-    ensures i == j,
-{
-    if i < j { assert(!s[i].0.spec_available(el)); } else if j < i { assert(!s[j].0.spec_available(el)); }
-}
+//@include factory_vocab.vs
 
 //@fn id=create file=code/remover/marker/factory.rs name=create props=C01,C02,C03,C11
 //@ret r
